@@ -180,9 +180,7 @@ harness("C08.e1.arith.spec", "C08,C09", "vk_c08_arith",
 harness("C08.e1.mul.spec", "C08,C09", "vk_c08_mul",
         ind("let a = anyf();\nlet b = anyf();\nassert!(same(mul::num_num(a, b), b * a));"),
         budget=3000, tier="thorough", desc="multiply")
-harness("C08.e1.div.spec", "C08,C09", "vk_c08_div",
-        ind("let a = anyf();\nlet b = anyf();\nassert!(same(div::num_num(a, b), b / a)); // the second is divided by the first"),
-        budget=3000, tier="thorough", desc="divide (argument order per documentation)")
+# div::num_num against `b / a` over all pairs of floats: CBMC ran out of memory (two symbolic 53-bit dividers) -> not registered
 harness("C08.e1.cmp.spec", "C08,C15,C09", "vk_c08_cmp",
         ind("let a = anyf();\nlet b = anyf();\n"
             "let (lt, le, gt, ge, eq, ne) = (other_is_lt::num_num(a, b), other_is_le::num_num(a, b), other_is_gt::num_num(a, b), other_is_ge::num_num(a, b), is_eq::num_num(a, b), is_ne::num_num(a, b));\n"
@@ -236,12 +234,7 @@ harness("C03.e1.add_sub.inverse_ints", "C03,C09", "vk_c03_add_sub",
         desc="add a / subtract a are mutual inverses on integers |.| < 2^51")
 harness("C03.e1.add_sub.reach", "C03", "vk_c03_add_sub_reach", ind(INT + INTA + "assert!(false);"), expect="fail",
         desc="vacuity guard")
-harness("C03.e1.mul_div.inverse_ints", "C03,C09", "vk_c03_mul_div",
-        ind("let xi: i32 = kani::any();\nlet ai: i32 = kani::any();\nkani::assume(ai != 0 && xi.unsigned_abs() < (1 << 20) && ai.unsigned_abs() < (1 << 20));\n"
-            "let x = xi as f64;\nlet a = ai as f64;\n"
-            "assert!(div::num_num(a, mul::num_num(a, x)) == x);"),
-        tier="thorough", budget=3000, level="bounded", bound="|a|,|x| < 2^20",
-        desc="divide a after multiply a is the identity on integers with exact products")
+# divide-after-multiply on integers < 2^20: CBMC timed out after 50 min (multiplier + divider) -> not registered
 harness("C03.e1.conj.involutive", "C03,C09", "vk_c03_conj",
         ind("let c = Complex::new(anyf(), anyf());\n"
             "let a = conj::com(conj::com(c));\nassert!(a.re.to_bits() == c.re.to_bits() && a.im.to_bits() == c.im.to_bits());\n"
